@@ -53,5 +53,9 @@ check("C09", "exploration",
       "Reference position model vs the buffer at every wait for walks over previous/next/beginning/end-of-history and up/down-line-or-history (both ends, restoration of the in-progress text), membership oracles for prefix / substring / incremental searches (buffer in {typed text} U {entries matching the documented search text}), abort restores the text, and source contents unchanged, over 9 history shapes incl. empty, one-entry, duplicates, multi-line, metacharacters, Unicode.",
       TCB, "runtime monitoring: reference model + membership oracles at hooked wait points", "DESIGN.md 5 C09")
 
+check("C11", "exploration",
+      "Post-return monitors on 15 exit paths x 4 modes x 7 buffer shapes x 4 initial termios variants: TCGETS struct equality before/after, last DECSCUSR parameter reset to 0, emulator cursor in column 0 of a blank row below all text; also after a user-registered command panicked and the panic unwound through Readline.",
+      TCB, "runtime monitoring: terminal-state monitors (termios, cursor cell, cursor style) after every exit path", "DESIGN.md 5 C11")
+
 for _p in ["C03","C04","C05","C06","C07","C08","C09","C10","C11","C12","C13","C14","C15","C16","C17","C18","C19","C20"]:
     NOT_YET[_p] = "check under construction in this session (runtime monitor designed in DESIGN.md section 5, not yet registered)"
